@@ -370,12 +370,9 @@ def rule_hd_startwin(cx, rep, port):
     f1 = p.func(mod, 'replace_star_vars')
     f2 = p.func(mod, 'replace_star_vars_for_ast' if port == 'py' else 'replace_star_vars_for_header_parsing')
     def info(fd):
-        pat = None
-        for c in walk_no_nested(fd):
-            if isinstance(c, ast.Call) and dotted(c.func) == 're.finditer' and isinstance(c.args[0], ast.Constant):
-                pat = c.args[0].value
-            if isinstance(c, ast.Call) and dotted(c.func) == '__regex__':
-                pat = c.args[0].value
+        from .pa import regexes_of
+        pats = [pt for pt, ic, nd in regexes_of(cx, port, fd, depth=0)]
+        pat = pats[-1] if pats else None
         keys = None
         vals = None
         for d in ast.walk(fd):
@@ -393,15 +390,34 @@ def rule_hd_startwin(cx, rep, port):
     rep.decide(core in p1 and core in p2, 'star token', f1, 'same star token in both patterns', 'the star token differs between the record-side and header-side patterns')
     rep.decide(p1.endswith(' *(?=$|,)') and p2.endswith(' *(?=$|,)'), 'star right context', f1, 'a star item ends at a comma or the end', 'star right context changed')
     # fresh list expansion on the record side: '] + X + [' / ']).concat(X).concat(['
-    expr = [n for n in walk_no_nested(f1) if isinstance(n, ast.Assign) and is_name(n.targets[0], 'replacement_expression')]
-    txt = node_text(expr[0].value, 400) if expr else ''
-    okx = ("'] + '" in txt and "' + ['" in txt) if port == 'py' else ("']).concat('" in txt and "').concat(['" in txt)
-    rep.decide(okx, 'star expansion form', expr[0] if expr else f1, 'a star item closes the list literal, concatenates the record and reopens a literal: the result is a fresh list', 'star items are no longer spliced by concatenation into a fresh list')
-    skip1 = [n for n in walk_no_nested(f1) if isinstance(n, ast.Assign) and is_name(n.targets[0], 'last_pos') and isinstance(n.value, ast.BinOp)]
-    ok1 = any(node_text(s.value).endswith('+ 1') for s in skip1)
-    skip2 = [n for n in walk_no_nested(f2) if isinstance(n, ast.Assign) and is_name(n.targets[0], 'last_pos') and isinstance(n.value, (ast.BinOp, ast.Call))]
-    ok2 = skip2 and not any(node_text(s.value).endswith('+ 1') for s in skip2)
-    rep.decide(ok1 and ok2, 'comma handling', skip1[0] if skip1 else f1, 'record side consumes the comma after a star (the concatenation replaces it); header side keeps it', 'comma handling after a star item changed: the record-side and header-side item counts would differ')
+    from .pa import concat_parts
+    want = ('] +', '+ [') if port == 'py' else (']).concat(', ').concat([')
+    splice = None
+    for n in walk_no_nested(f1):
+        if isinstance(n, ast.BinOp) and isinstance(n.op, ast.Add) and not (isinstance(getattr(n, 'parent', None), ast.BinOp) and isinstance(n.parent.op, ast.Add)):
+            parts = concat_parts(n)
+            cs = [(i, x.value.strip()) for i, x in enumerate(parts) if isinstance(x, ast.Constant) and isinstance(x.value, str)]
+            if len(cs) >= 2 and cs[0][1] == want[0] and cs[-1][1] == want[1] and cs[-1][0] - cs[0][0] >= 2:
+                splice = n
+        if isinstance(n, ast.JoinedStr):
+            cs = [x.value.strip() for x in n.values if isinstance(x, ast.Constant)]
+            if len(cs) >= 2 and cs[0] == want[0] and cs[-1] == want[1]:
+                splice = n
+    rep.decide(splice is not None, 'star expansion form', splice if splice is not None else f1, 'a star item closes the list literal, concatenates the record and reopens a literal: the result is a fresh list', 'star items are no longer spliced by concatenation into a fresh list')
+
+    def end_positions(fd):
+        """assignments of a position derived from the end of a match: (node, skips one more character?)"""
+        out = []
+        for n in walk_no_nested(fd):
+            if isinstance(n, ast.Assign) and isinstance(n.targets[0], ast.Name):
+                t = node_text(n.value, 200).replace(' ', '')
+                if '.end()' in t or ('.index+' in t and 'len(' in t):
+                    out.append((n, t.endswith('+1')))
+        return out
+    e1, e2 = end_positions(f1), end_positions(f2)
+    ok1 = any(plus for _, plus in e1)
+    ok2 = bool(e2) and not any(plus for _, plus in e2)
+    rep.decide(ok1 and ok2, 'comma handling', e1[0][0] if e1 else f1, 'record side consumes the comma after a star (the concatenation replaces it); header side keeps it', 'comma handling after a star item changed: the record-side and header-side item counts would differ')
     # wrapping: '[{}]' / '[].concat([...])'
     ts = p.func(mod, 'translate_select_expression')
     rets = [r for r in walk_no_nested(ts) if isinstance(r, ast.Return)]
@@ -602,7 +618,8 @@ def rule_va_index(cx, rep, port):
         okb = '{variable_name} = record_b === null ? null : safe_get(record_b, {var_info.index});' in txt
     rep.decide(oka, 'a-variable init', gi, 'aN = safe_get(record_a, index)', 'a-variables are no longer initialised as safe_get(record_a, index)')
     rep.decide(okb, 'b-variable init', gi, 'bN = safe_get(record_b, index), None when record_b is None', 'b-variables are no longer None when there is no join partner')
-    init_only = [n for n in ast.walk(gi) if isinstance(n, ast.If) and node_text(n.test) == 'var_info.initialize']
+    init_only = [n for n in ast.walk(gi) if isinstance(n, ast.If) and isinstance(n.test, ast.Attribute) and n.test.attr == 'initialize']
+    init_only += [i for n in ast.walk(gi) if isinstance(n, ast.comprehension) for i in n.ifs if isinstance(i, ast.Attribute) and i.attr == 'initialize']
     rep.decide(len(init_only) == 2, 'initialize flag', gi, 'only variables flagged initialize are bound', 'the initialize flag is not honoured for both tables')
     gc = p.func(mod, 'generate_common_init_code')
     t = node_text(gc, 2000)
